@@ -9,7 +9,7 @@
 //! recursion: `Depth::{values,entries,stream_ext}` instantiate `Pred::..` with the wrapped type.
 //! A composition is a sequence  value-wrappers* , entry-wrappers* , stream-wrappers*  in the
 //! order in which the wrappers act on what the format finally sees ("action order").
-#![allow(clippy::type_complexity)]
+#![allow(clippy::type_complexity, private_bounds, private_interfaces)]
 
 use metrique::{InflectableEntry, RootEntry};
 use metrique_writer::entry::WithGlobalDimensions;
@@ -18,7 +18,7 @@ use metrique_writer::stream::{EntryIoStreamExt, MergeGlobalDimensions, MergeGlob
 use metrique_writer_core::entry::{Merged, MergedRef, SampleGroupElement};
 use metrique_writer_core::format::Format;
 use metrique_writer_core::value::{
-    FlagConstructor, ForceFlag, WithDimension, WithDimensions, WithVecDimensions,
+    FlagConstructor, WithDimension, WithDimensions, WithVecDimensions,
 };
 use metrique_writer_core::{
     BoxEntry, Entry, EntryConfig, EntryIoStream, EntryWriter, IoStreamError, MetricFlags,
@@ -1032,7 +1032,8 @@ impl Cx {
             self.evaluations += 1;
             let classes = diff(&exp, &got, &denied);
             if classes.is_empty() {
-                if n_nontrivial == total && total > 0 && self.bases[bi].label == "mixed" && !self.samples.contains_key(&total) {
+                if n_nontrivial == total
+                    && (1..total).all(|i| (0..i).all(|j| std::mem::discriminant(&steps[i].sem) != std::mem::discriminant(&steps[j].sem))) && total > 0 && self.bases[bi].label == "mixed" && !self.samples.contains_key(&total) {
                     self.samples.insert(
                         total,
                         json!({ "composition": names, "base_entry": self.bases[bi].c.d.to_json(), "base_sample_group": self.bases[bi].c.sg, "observed_equals_expected": log_json(&got) }),
